@@ -286,6 +286,16 @@ def case_casei(case):
         raise Violation(f"casei:rejected_string_with_reading:{exc_class(name)}", f"get_name({s!r}, ci) raised {name!r}; readings {rs}")
     if name not in {p + u for p, u in rs}:
         raise Violation("casei:answer_not_a_reading", f"get_name({s!r}, ci) = {name!r}, readings {rs}")
+    if mode == "registry":
+        # every entry point that takes a unit string follows the registry's setting, not only the parser proper
+        for tag, fn in (("Unit", lambda: next(iter(ureg.Unit(s)._units))), ("Quantity", lambda: next(iter(ureg.Quantity(1, s)._units))), ("to", lambda: next(iter(ureg.Quantity(1, name).to(s)._units))),
+                        ("m_as", lambda: (ureg.Quantity(1, name).m_as(s), name)[1]), ("convert", lambda: (ureg.convert(1, s, name), name)[1]), ("get_root_units", lambda: (ureg.get_root_units(s), name)[1]),
+                        ("get_dimensionality", lambda: (ureg.get_dimensionality(s), name)[1]), ("is_compatible_with", lambda: name if ureg.Quantity(1, name).is_compatible_with(s) else "incompatible")):
+            s2, r2 = attempt(fn)
+            if s2 == "err" and isinstance(r2, pint.OffsetUnitCalculusError):
+                continue
+            if s2 == "err" or r2 != name:
+                raise Violation(f"casei:entry_point_ignores_registry_setting:{tag}", f"case_sensitive=False registry: get_name({s!r}) = {name!r}, but {tag} with {s!r} -> {r2!r}")
     # and the default (case-sensitive) lookup must not accept it unless it has a case-sensitive reading
     if mode == "call":
         st2, n2 = attempt(ureg.get_name, s)
@@ -436,6 +446,16 @@ def case_delta(case):
         want2 = canon_off if (single or not default) else "delta_" + canon_off
         if want2 not in dict(q._units):
             raise Violation("delta:Quantity_constructor", f"Quantity(2,{expr!r}) default_as_delta={default} -> {dict(q._units)}")
+        # ... and so do the entry points that take a unit string as a target
+        import pint
+
+        for tag, fn in (("to", lambda: dict(q.to(expr)._units)), ("ito", lambda: (lambda q2: (q2.ito(expr), dict(q2._units))[1])(ureg.Quantity(2, expr))), ("convert", lambda: (ureg.convert(2, expr, expr), dict(q._units))[1]),
+                        ("m_as", lambda: (q.m_as(expr), dict(q._units))[1])):
+            s2, r2 = attempt(fn)
+            if s2 == "err" and isinstance(r2, pint.OffsetUnitCalculusError):
+                continue
+            if s2 == "err" or r2 != dict(q._units):
+                raise Violation(f"delta:entry_point_ignores_registry_setting:{tag}", f"default_as_delta={default}: Quantity(2,{expr!r}) has units {dict(q._units)}; {tag}({expr!r}) -> {r2!r}")
 
 
 def run_delta(task, tier, seed, col):
